@@ -278,6 +278,18 @@ func flowsFromAnyParam(v ssa.Value, depth int) bool {
 
 // anyOperand applies f to the operands of v (through local cells: values stored into an Alloc).
 func anyOperand(v ssa.Value, f func(ssa.Value) bool) bool {
+	if ms, ok := v.(*ssa.MakeSlice); ok && ms.Referrers() != nil {
+		// a slice filled element by element: what is stored into it
+		for _, ref := range *ms.Referrers() {
+			if ia, ok := ref.(*ssa.IndexAddr); ok && ia.Referrers() != nil {
+				for _, r2 := range *ia.Referrers() {
+					if st, ok := r2.(*ssa.Store); ok && st.Addr == ia && f(st.Val) {
+						return true
+					}
+				}
+			}
+		}
+	}
 	if al, ok := v.(*ssa.Alloc); ok {
 		for _, ref := range *al.Referrers() {
 			switch x := ref.(type) {
